@@ -22,7 +22,7 @@ RULE = ("seeded histories of 1-8 steps over harvest_combos (incl. Ellipsis), har
         "expand_dims, drop_sel on overlapping/disjoint coordinate sets of a 2-3-dimensional parameter space; per-step "
         "policy in {None, True, False}; a hidden resource 'version' makes re-harvested points conflict on purpose; engines "
         "h5netcdf/joblib; data names with and without extension; a brand-new Harvester (new session) at random steps; "
-        "a third of the h5netcdf cases construct every Harvester with chunks= (dataset kept as dask arrays over the file) and save several times in a row from one session; memory-only harvesters with sync=False; runs of un-synced harvests ended by a step that saves the memory; near-equal conflicting values; results that are whole numbers at first and fractional later, labels that are whole numbers / one character at first and fractional / longer later; every post-step state is one judged observation; distinct by history "
+        "a third of the h5netcdf cases construct every Harvester with chunks= (dataset kept as dask arrays over the file) and save several times in a row from one session; memory-only harvesters with sync=False; runs of un-synced harvests ended by a step that saves the memory; near-equal conflicting values; results that are whole numbers at first and fractional later, labels that are whole numbers / one character at first and fractional / longer later; every post-step state is one judged observation; a quarter of the histories under xarray's announced combine defaults, a quarter with the file named by a pathlib.Path, half with every file keeping one modification time throughout; distinct by history "
         "prefix; non-trivial from the second step on")
 ASSUMPTIONS = [
     "attributes of merged datasets are not judged (xarray's merge decides them); values, labels and variables are",
